@@ -346,6 +346,11 @@ namespace awkward {
         std::string("called 'index' without 'begin_tuple' at the same level before it")
         + FILENAME(__LINE__));
     }
+    else if (nextindex_ != -1  &&
+             contents_[(size_t)nextindex_].get()->active()) {
+      // the position belongs to the nested tuple that is being filled
+      contents_[(size_t)nextindex_].get()->index(index);
+    }
     else if (index < 0  ||  index >= (int64_t)contents_.size()) {
       throw std::invalid_argument(
         std::string("'index' ")
@@ -354,12 +359,8 @@ namespace awkward {
         + std::to_string(contents_.size())
         + FILENAME(__LINE__));
     }
-    else if (nextindex_ == -1  ||
-             !contents_[(size_t)nextindex_].get()->active()) {
-      nextindex_ = index;
-    }
     else {
-      contents_[(size_t)nextindex_].get()->index(index);
+      nextindex_ = index;
     }
     return shared_from_this();
   }
